@@ -833,88 +833,136 @@ theorem add_never_full (q : Q) (a b : Bytes) (n : Nat) (hq : q.numUsed ≤ q.siz
     refine ⟨_, _, rfl, ?_, rfl⟩
     simp [descsFor, hi']; omega
 
-/-! ### F10: the full-strength delivery statement fails on the model exactly as on the code
+/-! ### F10 (repaired): `pcm_xfer` against ANY device
 
-OPEN (does not hold for the code as it is; negation witnesses below):
-  ∀ q period frames script, let (x, r) := xferLoop s fuel (xferStart q period frames script);
-    r ≠ .fuel → sharedBuffers x.q = 0            -- "pcm_xfer never returns with buffers still shared"
--/
+Before the repair the blocking transfer bailed out of its loop on an out-of-order completion
+(`WrongToken`) or on an error status (`IoError`) while later chunks — whose status buffers live in its
+own stack frame — were still shared with the device.  The repaired loop remembers the first failure,
+stops submitting, keeps collecting, and matches completions to chunks by token.  The two former
+negation witnesses are now regression examples: -/
 
-/-- negation witness 1 (the minimal history of F10): 64 frame bytes, period 16, the device completes the
-second chunk before the first ⇒ `WrongToken`, 3 chains = 9 buffers still shared -/
+/-- the minimal history of F10 (64 frame bytes, period 16, the device completes the second chunk
+before the first): now `Ok`, everything submitted in order, nothing left shared -/
 example :
     let x := xferLoop 0 (xferFuel 16 (pattern 64 7 3) [.idle, .complete 1 S_OK])
       (xferStart { size := 32, indirect := false } 16 (pattern 64 7 3) [.idle, .complete 1 S_OK])
-    x.2 = .err (.q .wrongToken) ∧ sharedBuffers x.1.q = 9 := by decide
+    x.2 = .ok ∧ sharedBuffers x.1.q = 0 ∧ x.1.sent = pcmChunks 16 (pattern 64 7 3) := by decide
 
-/-- negation witness 2: error status for the first chunk while later chunks are outstanding ⇒ `IoError`,
-2 chains = 6 buffers still shared -/
+/-- error status for the first chunk while later chunks are outstanding: `IoError`, but only after the
+outstanding chunks have been collected -/
 example :
     let x := xferLoop 0 (xferFuel 16 (pattern 64 7 3) [.idle, .complete 0 0x8003])
       (xferStart { size := 32, indirect := false } 16 (pattern 64 7 3) [.idle, .complete 0 0x8003])
-    x.2 = .err .ioError ∧ sharedBuffers x.1.q = 6 := by decide
+    x.2 = .err .ioError ∧ sharedBuffers x.1.q = 0 ∧ x.1.sent.length = 3 := by decide
 
-/-- non-vacuity of the in-order statement: the same transfer against an in-order all-OK device returns
-`Ok`, delivers the four chunks once each in order, tagged with the stream id, nothing left shared -/
+/-- non-vacuity: an in-order all-OK device -/
 example :
     let x := xferLoop 5 (xferFuel 16 (pattern 64 7 3) [.idle, .complete 0 S_OK, .idle, .all])
       (xferStart { size := 32, indirect := false } 16 (pattern 64 7 3) [.idle, .complete 0 S_OK, .idle, .all])
     x.2 = .ok ∧ sharedBuffers x.1.q = 0 ∧ (x.1.delivered.map (·.data)).flatten = pattern 64 7 3
       ∧ x.1.delivered.all (fun d => d.stream == 5 && d.status == S_OK) = true := by decide
 
-/-! ### `pcm_xfer_partial`: delivery exactly once, in order, for in-order all-OK devices
-
-The full-strength statement (for *every* device) is OPEN above — it fails on the code (F10).  What
-holds, and is proved here for all frame lengths, all periods > 0, both descriptor modes, every
-timing/burst behaviour of an in-order all-OK device and every fuel: the loop never returns an error
-and never panics, and whenever it returns it has delivered exactly the chunks, once, in order,
-tagged, nothing left shared.  (Termination is not part of the statement: a device that never
-completes keeps the driver spinning, as in the code.) -/
 def mk (ind : Bool) (sid : Nat) (p : Nat × Bytes) : Chain :=
   { tok := p.1, ndesc := if ind then 1 else 3, rd := [encXferHdr sid, p.2], wr := [8] }
 
-structure K (ind : Bool) (sid : Nat) (all : List Bytes) (x : XS) : Prop where
+/-- the frame bytes of a tx chain -/
+def chunkOf (c : Chain) : Bytes := c.rd.getD 1 []
+
+/-- the 32-bit status word the driver reads for a delivered message -/
+def wordOf (d : Delivered) : Nat := effStatus (statusBytes d.status)
+
+/-- loop invariant of `pcm_xfer`, for an arbitrary device.  `S` = the statuses the device may answer
+(`fun _ => True` for the general theorem). -/
+structure K (S : Nat → Prop) (ind : Bool) (sid : Nat) (all : List Bytes) (x : XS) : Prop where
   size : x.q.size = 32
   hind : x.q.indirect = ind
-  chains : x.q.used.map (·.chain) ++ x.q.outstanding = x.ring.map (mk ind sid)
-  okw : ∀ u ∈ x.q.used, u.written = statusBytes S_OK
+  chains : (x.q.used.map (·.chain) ++ x.q.outstanding).Perm (x.ring.map (mk ind sid))
+  toks : (x.ring.map (·.1)).Nodup
+  fresh : ∀ p ∈ x.ring, p.1 < x.q.nextTok
   used : x.q.numUsed = x.ring.length * (if ind then 1 else 3)
   bound : x.q.numUsed ≤ 32
-  data : x.delivered.map (·.data) ++ x.q.outstanding.map (fun c => c.rd.getD 1 []) ++ x.remaining = all
-  tags : ∀ dl ∈ x.delivered, dl.stream = fromLE (encXferHdr sid) ∧ dl.status = S_OK
-  scr : ∀ a ∈ x.script, a = .idle ∨ a = .complete 0 S_OK ∨ a = .all
+  data : x.sent ++ x.remaining = all
+  deliv : (x.delivered.map (·.data) ++ x.q.outstanding.map chunkOf).Perm x.sent
+  tags : ∀ dl ∈ x.delivered, dl.stream = fromLE (encXferHdr sid) ∧ S dl.status
+  usedDel : ∀ u ∈ x.q.used, ∃ dl ∈ x.delivered, u.written = statusBytes dl.status
+  okSoFar : x.failed = none → ∀ dl ∈ x.delivered, wordOf dl ≠ S_OK →
+    ∃ u ∈ x.q.used, u.written = statusBytes dl.status
+  failWhy : ∀ e, x.failed = some e → e = .ioError ∧ ∃ dl ∈ x.delivered, wordOf dl ≠ S_OK
+  scr : ∀ i st, Act.complete i st ∈ x.script → S st
 
-theorem mem_ring_chain {ind sid all x} (k : K ind sid all x) : ∀ c ∈ x.q.outstanding, ∃ p, c = mk ind sid p := by
+theorem perm_eraseIdx {α : Type} : ∀ (l : List α) (i : Nat) (a : α), l[i]? = some a → l.Perm (a :: l.eraseIdx i) := by
+  intro l
+  induction l with
+  | nil => intro i a h; simp at h
+  | cons b l ih =>
+    intro i a h
+    cases i with
+    | zero => simp at h; subst h; simp
+    | succ n =>
+      simp only [List.getElem?_cons_succ] at h
+      simp only [List.eraseIdx_cons_succ]
+      exact ((ih n a h).cons b).trans (List.Perm.swap a b _)
+
+theorem nodup_map_inj {α β : Type} (f : α → β) : ∀ (l : List α), (l.map f).Nodup → ∀ a ∈ l, ∀ b ∈ l, f a = f b → a = b := by
+  intro l
+  induction l with
+  | nil => intro _ a ha; simp at ha
+  | cons c l ih =>
+    intro hn a ha b hb hab
+    simp only [List.map_cons, List.nodup_cons, List.mem_map, not_exists, not_and] at hn
+    simp only [List.mem_cons] at ha hb
+    rcases ha with rfl | ha <;> rcases hb with rfl | hb
+    · rfl
+    · exact absurd hab.symm (hn.1 b hb)
+    · exact absurd hab (hn.1 a ha)
+    · exact ih hn.2 a ha b hb hab
+
+theorem mem_out_chain {S ind sid all x} (k : K S ind sid all x) : ∀ c ∈ x.q.outstanding, ∃ p ∈ x.ring, c = mk ind sid p := by
   intro c hc
-  have : c ∈ x.ring.map (mk ind sid) := by rw [← k.chains]; simp [hc]
-  obtain ⟨p, _, hp⟩ := List.mem_map.1 this
-  exact ⟨p, hp.symm⟩
+  have : c ∈ x.ring.map (mk ind sid) := k.chains.subset (by simp [hc])
+  obtain ⟨p, hp, h⟩ := List.mem_map.1 this
+  exact ⟨p, hp, h.symm⟩
 
-theorem deliver0 {ind sid all x} (k : K ind sid all x) : K ind sid all (deliver x 0 S_OK) := by
+theorem deliver_K {S ind sid all x} (k : K S ind sid all x) (i st : Nat) (hst : S st) :
+    K S ind sid all (deliver x i st) := by
   unfold deliver
-  cases ho : x.q.outstanding with
-  | nil => simpa [ho] using k
-  | cons c rest =>
-    obtain ⟨p, hp⟩ := mem_ring_chain k c (by simp [ho])
-    have hc := k.chains
-    have hd := k.data
-    simp only [ho] at hc hd
-    simp only [List.getElem?_cons_zero, complete, ho]
-    refine ⟨k.size, k.hind, ?_, ?_, k.used, k.bound, ?_, ?_, k.scr⟩
-    · simpa [List.eraseIdx] using hc
-    · intro u hu
-      simp only [List.mem_append, List.mem_singleton] at hu
-      rcases hu with hu | rfl
-      · exact k.okw u hu
-      · rfl
-    · simpa [List.eraseIdx, hp, mk] using hd
+  cases ho : x.q.outstanding[i]? with
+  | none => simpa using k
+  | some c =>
+    obtain ⟨p, _, hp⟩ := mem_out_chain k c (List.mem_of_getElem? ho)
+    have hperm := perm_eraseIdx _ _ _ ho
+    simp only [complete, ho]
+    refine ⟨k.size, k.hind, ?_, k.toks, k.fresh, k.used, k.bound, k.data, ?_, ?_, ?_, ?_, ?_, k.scr⟩
+    · refine List.Perm.trans ?_ k.chains
+      simp only [List.map_append, List.map_cons, List.map_nil, List.append_assoc, List.singleton_append]
+      exact (List.Perm.append_left _ hperm).symm
+    · refine List.Perm.trans ?_ k.deliv
+      simp only [List.map_append, List.map_cons, List.map_nil, List.append_assoc, List.singleton_append]
+      refine List.Perm.append_left _ ?_
+      have := (hperm.map chunkOf).symm
+      simpa [chunkOf] using this
     · intro dl hdl
       simp only [List.mem_append, List.mem_singleton] at hdl
       rcases hdl with h | rfl
       · exact k.tags dl h
-      · simp [hp, mk]
+      · exact ⟨by simp [hp, mk], hst⟩
+    · intro u hu
+      simp only [List.mem_append, List.mem_singleton] at hu
+      rcases hu with h | rfl
+      · obtain ⟨dl, hdl, e⟩ := k.usedDel u h
+        exact ⟨dl, by simp [hdl], e⟩
+      · exact ⟨⟨fromLE (c.rd.getD 0 []), c.rd.getD 1 [], st⟩, by simp, rfl⟩
+    · intro hf dl hdl hw
+      simp only [List.mem_append, List.mem_singleton] at hdl
+      rcases hdl with h | rfl
+      · obtain ⟨u, hu, e⟩ := k.okSoFar hf dl h hw
+        exact ⟨u, by simp [hu], e⟩
+      · exact ⟨⟨c, statusBytes st, 8⟩, by simp, rfl⟩
+    · intro e he
+      obtain ⟨h1, dl, hdl, hw⟩ := k.failWhy e he
+      exact ⟨h1, dl, by simp [hdl], hw⟩
 
-theorem deliverAll_K {ind sid all} : ∀ (fuel : Nat) (x : XS), K ind sid all x → K ind sid all (deliverAll fuel x) := by
+theorem deliverAll_K {S ind sid all} (hok : S S_OK) : ∀ (fuel : Nat) (x : XS), K S ind sid all x → K S ind sid all (deliverAll fuel x) := by
   intro fuel
   induction fuel with
   | zero => intro x k; simpa [deliverAll] using k
@@ -923,186 +971,304 @@ theorem deliverAll_K {ind sid all} : ∀ (fuel : Nat) (x : XS), K ind sid all x 
     simp only [deliverAll]
     split
     · exact k
-    · exact ih _ (deliver0 k)
+    · exact ih _ (deliver_K k 0 S_OK hok)
 
-theorem withScript {ind sid all x} (k : K ind sid all x) (rest : List Act) (h : ∀ a ∈ rest, a ∈ x.script) :
-    K ind sid all { x with script := rest } :=
-  ⟨k.size, k.hind, k.chains, k.okw, k.used, k.bound, k.data, k.tags, fun a ha => k.scr a (h a ha)⟩
+theorem withScript {S ind sid all x} (k : K S ind sid all x) (rest : List Act) (h : ∀ a ∈ rest, a ∈ x.script) :
+    K S ind sid all { x with script := rest } :=
+  ⟨k.size, k.hind, k.chains, k.toks, k.fresh, k.used, k.bound, k.data, k.deliv, k.tags, k.usedDel, k.okSoFar,
+   k.failWhy, fun i st ha => k.scr i st (h _ ha)⟩
 
-theorem deviceStep_K {ind sid all x} (k : K ind sid all x) : K ind sid all (deviceStep x) := by
+theorem deviceStep_K {S ind sid all x} (hok : S S_OK) (k : K S ind sid all x) : K S ind sid all (deviceStep x) := by
   unfold deviceStep
   cases hs : x.script with
-  | nil => simp only; exact deliverAll_K _ _ k
+  | nil => simp only; exact deliverAll_K hok _ _ k
   | cons a rest =>
     have hrest : ∀ b ∈ rest, b ∈ x.script := by intro b hb; simp [hs, hb]
-    have ha := k.scr a (by simp [hs])
-    rcases ha with rfl | rfl | rfl
-    · exact withScript k rest hrest
-    · simp only [Nat.zero_min]
-      exact deliver0 (withScript k rest hrest)
-    · exact deliverAll_K _ _ (withScript k rest hrest)
+    cases a with
+    | idle => exact withScript k rest hrest
+    | complete i st =>
+      simp only
+      exact deliver_K (withScript k rest hrest) _ st (k.scr i st (by simp [hs]))
+    | all => exact deliverAll_K hok _ _ (withScript k rest hrest)
 
 theorem mk_ndesc (q : Q) (ind : Bool) (h : q.indirect = ind) : descsFor q 3 = if ind then 1 else 3 := by
   simp [descsFor, h]
 
-/-- one loop iteration against an in-order all-OK device: never an error, never a panic; it either
-continues with the invariant intact or returns `Ok` with nothing left to send and nothing in flight -/
-theorem xferIter_K {ind sid all x} (k : K ind sid all x) :
-    (∃ x', xferIter sid x = (x', none) ∧ K ind sid all x') ∨
-    (∃ x', xferIter sid x = (x', some .ok) ∧ K ind sid all x' ∧ x'.remaining = [] ∧ x'.ring = []) := by
-  -- the pop phase and device step, shared by both add-phase outcomes
-  have popPart : ∀ y : XS, K ind sid all y →
-      ∃ y', (match (if canPop y.q then
-              match y.ring with
-              | [] => (y, some XRes.panic)
-              | (tok, _) :: rest =>
-                match popUsed y.q tok with
-                | .error e => (y, some (.err (.q e)))
-                | .ok (q', u) =>
-                  if effStatus u.written ≠ S_OK then ({ y with q := q', ring := rest }, some (.err .ioError))
-                  else ({ y with q := q', ring := rest }, none)
-            else (y, none)) with
-          | (x, some r) => (x, some r)
-          | (x, none) => (deviceStep x, none)) = (y', none) ∧ K ind sid all y' := by
-    intro y ky
-    by_cases hcp : canPop y.q = true
-    · simp only [hcp, ↓reduceIte]
-      have hne : y.q.used ≠ [] := by simpa [canPop] using hcp
-      obtain ⟨u, us, hu⟩ := List.exists_cons_of_ne_nil hne
-      have hc := ky.chains
-      rw [hu] at hc
-      cases hr : y.ring with
-      | nil => simp [hr] at hc
-      | cons p rest =>
-        obtain ⟨tok, c⟩ := p
-        simp only [hr, List.map_cons, List.cons_append, List.cons.injEq] at hc
-        have htok : u.chain.tok = tok := by rw [hc.1]; rfl
-        have hw : u.written = statusBytes S_OK := ky.okw u (by simp [hu])
-        have hnd : u.chain.ndesc = if ind then 1 else 3 := by rw [hc.1]; rfl
-        simp only [popUsed, hu, htok, ne_eq, not_true_eq_false, ↓reduceIte, hw]
-        have hst : effStatus (statusBytes S_OK) = S_OK := by decide
-        simp only [hst, not_true_eq_false, ↓reduceIte]
-        refine ⟨_, rfl, deviceStep_K ?_⟩
-        refine ⟨ky.size, ky.hind, ?_, ?_, ?_, ?_, ky.data, ky.tags, ky.scr⟩
-        · simpa using hc.2
-        · intro v hv; exact ky.okw v (by simp [hu, hv])
-        · simp only [ky.used, hr, List.length_cons, hnd]
-          cases ind <;> simp <;> omega
-        · simp only; have := ky.bound; omega
-    · simp only [hcp, Bool.false_eq_true, ↓reduceIte]
-      exact ⟨_, rfl, deviceStep_K ky⟩
-  unfold xferIter
-  by_cases ha : availableDesc x.q ≥ 3
-  · simp only [ha, ↓reduceIte]
+/-- the add phase keeps the invariant, and never records a failure (capacity is checked first) -/
+theorem xferAdd_K {S ind sid all x} (k : K S ind sid all x) : K S ind sid all (xferAdd sid x) := by
+  unfold xferAdd
+  split
+  · rename_i hc
     cases hrem : x.remaining with
+    | nil => simpa using k
     | cons c rest =>
       obtain ⟨q', tok, hadd, hb, hsz⟩ := Props.C20.Sound.add_never_full x.q (encXferHdr sid) c 8
-        (by rw [k.size]; exact k.bound) (by rw [k.size]; decide) ha
-      have hq' := Props.C20.Sound.xferIter_tags sid x c rest hrem ha q' tok hadd
-      have hq'u : q'.used = x.q.used ∧ q'.indirect = x.q.indirect ∧ q'.numUsed = x.q.numUsed + descsFor x.q 3 := by
+        (by rw [k.size]; exact k.bound) (by rw [k.size]; decide) hc.2
+      have hq' := Props.C20.Sound.xferIter_tags sid x c rest hrem hc.2 q' tok hadd
+      have hq'u : q'.used = x.q.used ∧ q'.indirect = x.q.indirect ∧ q'.numUsed = x.q.numUsed + descsFor x.q 3
+          ∧ tok = x.q.nextTok ∧ q'.nextTok = x.q.nextTok + 1 := by
         simp only [add] at hadd
         split at hadd
         · simp at hadd
         · split at hadd
           · simp at hadd
           · simp only [Except.ok.injEq, Prod.mk.injEq] at hadd
-            obtain ⟨rfl, _⟩ := hadd
+            obtain ⟨rfl, rfl⟩ := hadd
             simp
       simp only [hadd]
-      left
-      have ky : K ind sid all (XS.mk q' rest (x.ring ++ [(tok, c)]) x.script x.delivered (x.submitted + 1)
-          (max x.maxOut (x.ring ++ [(tok, c)]).length)) := by
-        refine ⟨by rw [hsz]; exact k.size, by rw [hq'u.2.1]; exact k.hind, ?_, ?_, ?_, ?_, ?_, k.tags, k.scr⟩
-        · simp only [hq'u.1, hq', List.map_append, List.map_cons, List.map_nil, ← List.append_assoc, k.chains]
-          simp [mk, mk_ndesc x.q ind k.hind]
-        · intro u hu; exact k.okw u (by rw [← hq'u.1]; exact hu)
-        · simp only [hq'u.2.2, k.used, mk_ndesc x.q ind k.hind, List.length_append, List.length_singleton]
-          cases ind <;> simp <;> omega
-        · rw [hsz, k.size] at hb; exact hb
-        · have hd := k.data
-          simp only [hrem] at hd
-          simp only [hq', List.map_append, List.map_cons, List.map_nil, List.getD_cons_succ, List.getD_cons_zero]
-          simpa using hd
-      obtain ⟨y', hy', ky'⟩ := popPart _ ky
-      exact ⟨y', hy', ky'⟩
-    | nil =>
-      simp only
-      by_cases hz : x.ring.length % QUEUE_SIZE = 0
-      · simp only [hz, ↓reduceIte]
-        right
-        refine ⟨x, rfl, k, hrem, ?_⟩
-        -- three free descriptors and a ring length that is a multiple of 32 leave only the empty ring
-        have hu := k.used
-        have hb := k.bound
-        have hlen : x.ring.length < 32 := by
-          simp only [availableDesc, k.hind, k.size] at ha
-          cases ind
-          · simp at ha hu; omega
-          · simp at ha hu
-            by_cases h32 : x.q.numUsed = 32
-            · simp [h32] at ha
-            · omega
-        have : x.ring.length = 0 := by simp only [QUEUE_SIZE] at hz; omega
-        exact List.length_eq_zero_iff.1 this
-      · simp only [hz, ↓reduceIte]
-        left
-        obtain ⟨y', hy', ky'⟩ := popPart _ k
-        exact ⟨y', hy', ky'⟩
-  · simp only [ha, ↓reduceIte]
-    left
-    obtain ⟨y', hy', ky'⟩ := popPart _ k
-    exact ⟨y', hy', ky'⟩
+      refine ⟨by rw [hsz]; exact k.size, by rw [hq'u.2.1]; exact k.hind, ?_, ?_, ?_, ?_, ?_, ?_, ?_, k.tags, ?_, ?_, k.failWhy, k.scr⟩
+      · simp only [hq'u.1, hq', List.map_append, List.map_cons, List.map_nil, ← List.append_assoc]
+        refine List.Perm.append k.chains ?_
+        simp [mk, mk_ndesc x.q ind k.hind]
+      · simp only [List.map_append, List.map_cons, List.map_nil]
+        refine List.nodup_append.2 ⟨k.toks, by simp, ?_⟩
+        intro a ha b hb
+        simp only [List.mem_singleton] at hb
+        obtain ⟨p, hp, rfl⟩ := List.mem_map.1 ha
+        have := k.fresh p hp
+        rw [hb, hq'u.2.2.2.1]; omega
+      · intro p hp
+        simp only [List.mem_append, List.mem_singleton] at hp
+        rcases hp with h | rfl
+        · have := k.fresh p h; rw [hq'u.2.2.2.2]; omega
+        · simp only [hq'u.2.2.2.1, hq'u.2.2.2.2]; omega
+      · simp only [hq'u.2.2.1, k.used, mk_ndesc x.q ind k.hind, List.length_append, List.length_singleton]
+        cases ind <;> simp <;> omega
+      · rw [hsz, k.size] at hb; exact hb
+      · have hd := k.data
+        simp only [hrem] at hd
+        simpa using hd
+      · simp only [hq', List.map_append, List.map_cons, List.map_nil, ← List.append_assoc]
+        refine List.Perm.append k.deliv ?_
+        simp [chunkOf]
+      · intro u hu; exact k.usedDel u (by rw [← hq'u.1]; exact hu)
+      · intro hf dl hdl hw
+        obtain ⟨u, hu, e⟩ := k.okSoFar hf dl hdl hw
+        exact ⟨u, by rw [hq'u.1]; exact hu, e⟩
+  · exact k
 
-theorem xferLoop_K {ind sid all} : ∀ (fuel : Nat) (x : XS), K ind sid all x →
+/-- one loop iteration against ANY device: it either continues with the invariant intact, or returns
+(with the remembered result) when nothing is outstanding -/
+theorem xferIter_K {S ind sid all x} (hok : S S_OK) (k : K S ind sid all x) :
+    (∃ x', xferIter sid x = (x', none) ∧ K S ind sid all x') ∨
+    (∃ x', xferIter sid x = (x', some (xferResult x')) ∧ K S ind sid all x' ∧ x'.ring = []
+      ∧ (x'.failed = none → x'.remaining = [])) := by
+  have k1 := xferAdd_K (sid := sid) k
+  unfold xferIter
+  generalize xferAdd sid x = y at k1
+  simp only
+  by_cases hret : y.ring.isEmpty = true ∧ (y.failed.isSome = true ∨ y.remaining.isEmpty = true)
+  · simp only [hret, and_self, ↓reduceIte]
+    right
+    refine ⟨y, rfl, k1, by simpa using hret.1, ?_⟩
+    intro hf
+    rcases hret.2 with h | h
+    · simp [hf] at h
+    · simpa using h
+  · simp only [hret, ↓reduceIte]
+    left
+    cases hu : y.q.used with
+    | nil =>
+      simp only [peekUsed, hu, List.head?_nil, Option.map_none]
+      exact ⟨_, rfl, deviceStep_K hok k1⟩
+    | cons u rest =>
+      simp only [peekUsed, hu, List.head?_cons, Option.map_some]
+      have hmem : u.chain ∈ y.ring.map (mk ind sid) := k1.chains.subset (by simp [hu])
+      obtain ⟨p, hp, hpc⟩ := List.mem_map.1 hmem
+      have hptok : p.1 = u.chain.tok := by rw [← hpc]; rfl
+      cases hfind : y.ring.find? (fun s => s.1 == u.chain.tok) with
+      | none =>
+        have := List.find?_eq_none.1 hfind p hp
+        simp [hptok] at this
+      | some slot =>
+        have hslot_mem : slot ∈ y.ring := List.mem_of_find?_eq_some hfind
+        have hslot_tok : slot.1 = u.chain.tok := by
+          have := List.find?_some hfind
+          simpa using this
+        have hsp : slot = p := nodup_map_inj (·.1) y.ring k1.toks slot hslot_mem p hp (by rw [hslot_tok, hptok])
+        have hnd : u.chain.ndesc = if ind then 1 else 3 := by rw [← hpc]; rfl
+        simp only [popUsed, hu, ne_eq, not_true_eq_false, ↓reduceIte]
+        refine ⟨_, rfl, deviceStep_K hok ?_⟩
+        have hperm : y.ring.Perm (slot :: y.ring.erase slot) := List.perm_cons_erase hslot_mem
+        have hlen : (y.ring.erase slot).length = y.ring.length - 1 := List.length_erase_of_mem hslot_mem
+        have hpos : 0 < y.ring.length := List.length_pos_of_mem hslot_mem
+        refine ⟨k1.size, k1.hind, ?_, ?_, ?_, ?_, ?_, k1.data, k1.deliv, k1.tags, ?_, ?_, ?_, k1.scr⟩
+        · have h1 := k1.chains
+          rw [hu] at h1
+          have h2 : (y.ring.map (mk ind sid)).Perm (mk ind sid slot :: (y.ring.erase slot).map (mk ind sid)) := by
+            simpa using hperm.map (mk ind sid)
+          have h3 := h1.trans h2
+          simp only [List.map_cons, List.cons_append] at h3
+          rw [hsp, hpc] at h3
+          simpa [hsp] using h3.cons_inv
+        · exact List.Nodup.sublist ((List.erase_sublist).map _) k1.toks
+        · intro q hq; exact k1.fresh q (List.mem_of_mem_erase hq)
+        · simp only [k1.used, hlen, hnd]
+          cases ind <;> simp <;> omega
+        · simp only; have := k1.bound; omega
+        · intro v hv; exact k1.usedDel v (by simp [hu, hv])
+        · intro hf dl hdl hw
+          simp only at hf
+          by_cases hcond : y.failed.isNone = true ∧ effStatus u.written ≠ S_OK
+          · simp [hcond] at hf
+          · simp only [hcond, ↓reduceIte] at hf
+            obtain ⟨v, hv, e⟩ := k1.okSoFar hf dl hdl hw
+            rw [hu] at hv
+            simp only [List.mem_cons] at hv
+            rcases hv with rfl | hv
+            · exfalso
+              apply hcond
+              refine ⟨by simp [hf], ?_⟩
+              rw [e]; exact hw
+            · exact ⟨v, hv, e⟩
+        · intro e he
+          simp only at he
+          by_cases hcond : y.failed.isNone = true ∧ effStatus u.written ≠ S_OK
+          · rw [if_pos hcond] at he
+            have he := Option.some.inj he
+            obtain ⟨dl, hdl, hw⟩ := k1.usedDel u (by simp [hu])
+            refine ⟨he.symm, dl, hdl, ?_⟩
+            simp only [wordOf, ← hw]; exact hcond.2
+          · simp only [hcond, ↓reduceIte] at he
+            exact k1.failWhy e he
+
+theorem xferLoop_K {S ind sid all} (hok : S S_OK) : ∀ (fuel : Nat) (x : XS), K S ind sid all x →
     (xferLoop sid fuel x).2 = .fuel ∨
-    ((xferLoop sid fuel x).2 = .ok ∧ K ind sid all (xferLoop sid fuel x).1
-      ∧ (xferLoop sid fuel x).1.remaining = [] ∧ (xferLoop sid fuel x).1.ring = []) := by
+    ((xferLoop sid fuel x).2 = xferResult (xferLoop sid fuel x).1 ∧ K S ind sid all (xferLoop sid fuel x).1
+      ∧ (xferLoop sid fuel x).1.ring = []
+      ∧ ((xferLoop sid fuel x).1.failed = none → (xferLoop sid fuel x).1.remaining = [])) := by
   intro fuel
   induction fuel with
   | zero => intro x _; left; rfl
   | succ n ih =>
     intro x k
-    rcases xferIter_K k with ⟨x', h, k'⟩ | ⟨x', h, k', hr, hg⟩
+    rcases xferIter_K hok k with ⟨x', h, k'⟩ | ⟨x', h, k', hg, hr⟩
     · simp only [xferLoop, h]; exact ih x' k'
-    · right; simp only [xferLoop, h]; exact ⟨by trivial, k', hr, hg⟩
+    · right; simp only [xferLoop, h]; exact ⟨by trivial, k', hg, hr⟩
 
-/-- the script of an in-order all-OK device: at each busy-wait iteration it does nothing, completes the
-oldest message in flight with status OK, or completes everything in flight oldest first -/
-def InOrderAllOk (script : List Act) : Prop := ∀ a ∈ script, a = .idle ∨ a = .complete 0 S_OK ∨ a = .all
+/-- a fresh tx queue: nothing submitted and nothing pending (no `pcm_xfer_nb` outstanding) -/
+def FreshTx (q0 : Q) : Prop := q0.size = 32 ∧ q0.numUsed = 0 ∧ q0.outstanding = [] ∧ q0.used = []
 
-/-- **`pcm_xfer` against an in-order all-OK device** (any timing, any burst sizes, both descriptor
-modes, ALL frame lengths and period sizes > 0): the loop never fails and never panics; when it returns
-it returns `Ok`, the device has received exactly the chunks of the caller's frames, once each, in
-order, each tagged with the stream id and answered OK, and no buffer is left shared. -/
-theorem pcm_xfer_partial (q0 : Q) (sid period : Nat) (frames : Bytes) (script : List Act) (fuel : Nat)
-    (hq : q0.size = 32 ∧ q0.numUsed = 0 ∧ q0.outstanding = [] ∧ q0.used = []) (hp : 0 < period)
-    (hs : InOrderAllOk script) :
+theorem K_start (S : Nat → Prop) (q0 : Q) (sid period : Nat) (frames : Bytes) (script : List Act) (hq : FreshTx q0)
+    (hs : ∀ i st, Act.complete i st ∈ script → S st) :
+    K S q0.indirect sid (pcmChunks period frames) (xferStart q0 period frames script) := by
+  refine ⟨hq.1, rfl, ?_, ?_, ?_, ?_, ?_, ?_, ?_, ?_, ?_, ?_, ?_, hs⟩
+  · simp [xferStart, hq.2.2.1, hq.2.2.2]
+  · simp [xferStart]
+  · simp [xferStart]
+  · simp [xferStart, hq.2.1]
+  · simp [xferStart, hq.2.1]
+  · simp [xferStart]
+  · simp [xferStart, hq.2.2.1]
+  · simp [xferStart]
+  · simp [xferStart, hq.2.2.2]
+  · simp [xferStart]
+  · simp [xferStart]
+
+/-- **`pcm_xfer` against ANY device** — any completion order, any status words, any timing and burst
+sizes, both descriptor modes, ALL frame lengths and period sizes > 0, every fuel.  Whenever the call
+returns:
+* it returns `Ok` or `IoError` — never `WrongToken`, `QueueFull` or a panic;
+* nothing is outstanding, nothing is pending in the used ring, **no buffer is left shared**;
+* what it submitted is a prefix of the caller's chunks, in order, each exactly once (`sent`), and the
+  device received exactly those messages (as a multiset: it may have completed them in any order),
+  every one tagged with the stream id;
+* `Ok` ⇒ everything was submitted (the chunks concatenate to the caller's frames) and every message
+  was answered with status OK;
+* `IoError` ⇒ the device answered some message with a status word other than OK.
+(Termination is not part of the statement: a device that never completes keeps the driver spinning,
+as in the code.) -/
+theorem pcm_xfer_any_device (q0 : Q) (sid period : Nat) (frames : Bytes) (script : List Act) (fuel : Nat)
+    (hq : FreshTx q0) (hp : 0 < period) :
     let r := xferLoop sid fuel (xferStart q0 period frames script)
     r.2 = .fuel ∨
-    (r.2 = .ok ∧ r.1.delivered.map (·.data) = pcmChunks period frames
-      ∧ (r.1.delivered.map (·.data)).flatten = frames
-      ∧ (∀ d ∈ r.1.delivered, d.stream = fromLE (encXferHdr sid) ∧ d.status = S_OK)
-      ∧ r.1.q.outstanding = [] ∧ r.1.q.used = [] ∧ sharedBuffers r.1.q = 0) := by
+    ((r.2 = .ok ∨ r.2 = .err .ioError)
+      ∧ r.1.q.outstanding = [] ∧ r.1.q.used = [] ∧ sharedBuffers r.1.q = 0
+      ∧ r.1.sent ++ r.1.remaining = pcmChunks period frames
+      ∧ (r.1.delivered.map (·.data)).Perm r.1.sent
+      ∧ (∀ d ∈ r.1.delivered, d.stream = fromLE (encXferHdr sid))
+      ∧ (r.2 = .ok → r.1.sent = pcmChunks period frames ∧ r.1.sent.flatten = frames
+            ∧ ∀ d ∈ r.1.delivered, wordOf d = S_OK)
+      ∧ (r.2 = .err .ioError → ∃ d ∈ r.1.delivered, wordOf d ≠ S_OK)) := by
   intro r
-  have k0 : K q0.indirect sid (pcmChunks period frames) (xferStart q0 period frames script) := by
-    refine ⟨hq.1, rfl, ?_, ?_, ?_, ?_, ?_, ?_, hs⟩
-    · simp [xferStart, hq.2.2.1, hq.2.2.2]
-    · simp [xferStart, hq.2.2.2]
-    · simp [xferStart, hq.2.1]
-    · simp [xferStart, hq.2.1]
-    · simp [xferStart, hq.2.2.1]
-    · simp [xferStart]
-  rcases xferLoop_K fuel _ k0 with h | ⟨h, k, hr, hg⟩
+  have k0 := K_start (fun _ => True) q0 sid period frames script hq (fun _ _ _ => trivial)
+  rcases xferLoop_K (S := fun _ => True) trivial fuel _ k0 with h | ⟨h, k, hg, hr⟩
   · left; exact h
   · right
     have hc := k.chains
     rw [hg] at hc
-    simp only [List.map_nil, List.append_eq_nil_iff, List.map_eq_nil_iff] at hc
-    have hd := k.data
-    rw [hc.2, hr] at hd
+    simp only [List.map_nil, List.perm_nil, List.append_eq_nil_iff, List.map_eq_nil_iff] at hc
+    have hd := k.deliv
+    rw [hc.2] at hd
     simp only [List.map_nil, List.append_nil] at hd
-    refine ⟨h, hd, ?_, k.tags, hc.2, hc.1, ?_⟩
-    · rw [hd]; exact Props.C20.Sound.pcmChunks_concat period frames hp
+    have hres : r.2 = xferResult r.1 := h
+    have hsh : sharedBuffers r.1.q = 0 := by
+      show sharedBuffers (xferLoop sid fuel (xferStart q0 period frames script)).1.q = 0
+      simp [sharedBuffers, shared, hc.1, hc.2]
+    cases hf : r.1.failed with
+    | none =>
+      have hrem := hr hf
+      have hdata := k.data
+      rw [hrem, List.append_nil] at hdata
+      have hok : r.2 = .ok := by rw [hres]; simp [xferResult, hf]
+      refine ⟨Or.inl hok, hc.2, hc.1, hsh, k.data, hd, fun d hd' => (k.tags d hd').1, ?_, ?_⟩
+      · intro _
+        refine ⟨hdata, ?_, ?_⟩
+        · rw [hdata]; exact Props.C20.Sound.pcmChunks_concat period frames hp
+        · intro d hd'
+          by_cases hw : wordOf d = S_OK
+          · exact hw
+          · obtain ⟨u, hu, _⟩ := k.okSoFar hf d hd' hw
+            rw [hc.1] at hu; simp at hu
+      · intro he; rw [hok] at he; cases he
+    | some e =>
+      obtain ⟨he, dl, hdl, hw⟩ := k.failWhy e hf
+      have herr : r.2 = .err .ioError := by rw [hres]; simp [xferResult, hf, he]
+      refine ⟨Or.inr herr, hc.2, hc.1, hsh, k.data, hd, fun d hd' => (k.tags d hd').1, ?_, ?_⟩
+      · intro hok; rw [herr] at hok; cases hok
+      · intro _; exact ⟨dl, hdl, hw⟩
+
+/-- the script of an all-OK device: it may stay idle, complete any message in flight (in ANY order)
+with status OK, or complete everything in flight -/
+def AllOk (script : List Act) : Prop := ∀ i st, Act.complete i st ∈ script → st = S_OK
+
+/-- **`pcm_xfer` in the absence of device errors** (the property's hypothesis): against a device that
+answers every message with OK — in any order, with any timing — the call never fails; when it returns
+it returns `Ok`, having submitted exactly the chunks of the caller's frames, once each, in order, each
+tagged with the stream id, and no buffer is left shared. -/
+theorem pcm_xfer_no_device_errors (q0 : Q) (sid period : Nat) (frames : Bytes) (script : List Act) (fuel : Nat)
+    (hq : FreshTx q0) (hp : 0 < period) (hs : AllOk script) :
+    let r := xferLoop sid fuel (xferStart q0 period frames script)
+    r.2 = .fuel ∨
+    (r.2 = .ok ∧ r.1.sent = pcmChunks period frames ∧ r.1.sent.flatten = frames
+      ∧ (r.1.delivered.map (·.data)).Perm (pcmChunks period frames)
+      ∧ (∀ d ∈ r.1.delivered, d.stream = fromLE (encXferHdr sid) ∧ d.status = S_OK)
+      ∧ r.1.q.outstanding = [] ∧ r.1.q.used = [] ∧ sharedBuffers r.1.q = 0) := by
+  intro r
+  have k0 := K_start (fun st => st = S_OK) q0 sid period frames script hq hs
+  rcases xferLoop_K (S := fun st => st = S_OK) rfl fuel _ k0 with h | ⟨h, k, hg, hr⟩
+  · left; exact h
+  · right
+    have hc := k.chains
+    rw [hg] at hc
+    simp only [List.map_nil, List.perm_nil, List.append_eq_nil_iff, List.map_eq_nil_iff] at hc
+    have hd := k.deliv
+    rw [hc.2] at hd
+    simp only [List.map_nil, List.append_nil] at hd
+    have hf : r.1.failed = none := by
+      cases hf : r.1.failed with
+      | none => rfl
+      | some e =>
+        obtain ⟨_, dl, hdl, hw⟩ := k.failWhy e hf
+        have := (k.tags dl hdl).2
+        exfalso; apply hw
+        simp only [wordOf, this]; decide
+    have hdata := k.data
+    rw [hr hf, List.append_nil] at hdata
+    have hres : r.2 = xferResult r.1 := h
+    refine ⟨by rw [hres]; simp [xferResult, hf], hdata, ?_, ?_, k.tags, hc.2, hc.1, ?_⟩
+    · rw [hdata]; exact Props.C20.Sound.pcmChunks_concat period frames hp
+    · rw [← hdata]; exact hd
     · show sharedBuffers (xferLoop sid fuel (xferStart q0 period frames script)).1.q = 0
       simp [sharedBuffers, shared, hc.1, hc.2]
 
